@@ -6,6 +6,23 @@ C23 — mutable share containers behave like byte arrays (property theorems only
 Model: `Tahoe/Storage/Mutable.lean` (container file, byte-exact), `Tahoe/Storage/Slot.lean` (server calls).
 Specification: `Tahoe/Storage/Spec.lean`, `SlotSpec.lean` (a share = a growable byte array; a storage
 index = a finite map of such arrays).  `absData f = pread f 468 (dataLength f)` is the abstraction.
+
+Coverage of the statement (properties.jsonl C23), clause → theorem(s) proving it for the model:
+* "each mutable share behaves like a growable byte array, for any sequence of test-and-write and read operations"
+      → `reachable_wf` + `refines_bytearray` (every request from every reachable state, repaired server) +
+        `slot_readv_refines`; container level `writev_refines`, invariant `wf_preserved`
+* "writes past the end fill the gap with zero bytes" → `writev_refines` (spec `splice`), `truncate_then_extend_zero`
+      (an EMPTY write past the end also extends: example after `writev_refines`)
+* "a smaller new length truncates" (larger is ignored) → `writev_refines` / `refines_bytearray` (`Spec.newLength`)
+* "reads are clipped at the current length" → `writev_refines` (readv part), `slot_readv_refines`
+* "test vectors compare against the current data (a missing share reads as empty)" → `refines_bytearray`
+      (`Spec.evalTests`, `Spec.dataOf`); C24 `absent_share_tests_count`
+* "a new length of zero deletes the share" → `refines_bytearray` (`Spec.evalWrites` erases)
+* (order of the write vectors of one request) → `write_vectors_in_order`
+* "data writes never alter the share's leases" → `leases_unchanged_by_data_ops` (container, any vectors, even a failing
+      call); whole request: C25 `rtw_keeps_every_lease`
+* not covered: requests that raise on the UNREPAIRED server (`refines_bytearray` assumes the size pre-check of
+  fixes/C24-precheck.diff, which /repo contains); negative offsets / non-`eq` operators (outside the model).
 -/
 namespace Tahoe.C23
 open Tahoe.Base.File Tahoe.Storage Tahoe.Storage.Mutable Tahoe.Storage.Slot Tahoe.Generated.Storage
@@ -113,6 +130,30 @@ theorem refines_bytearray (qs : List Req) (q : Req) (hfix : q.env.precheck = tru
     · simp only [hg, Bool.not_false, if_true, Except.ok.injEq, Prod.mk.injEq] at hout ⊢
       obtain ⟨rfl, rfl⟩ := hout
       simp
+
+/-! ### the write vectors of one share are applied in the order given -/
+
+/-- `writev` applies its vectors as a left fold in list order: appending a vector splices it onto the result of all
+    the earlier ones, so where vectors overlap the LATER one wins and an earlier far write has already extended the
+    array when a later vector is applied.  (Via `writev_refines` / `refines_bytearray` this is what the container and
+    the server do; re-ordering the vectors is observable, see the example.) -/
+theorem write_vectors_in_order (a : Bytes) (dv : List (Nat × Bytes)) (o : Nat) (d : Bytes) :
+    Spec.writeAll a (dv ++ [(o, d)]) = splice (Spec.writeAll a dv) o d ∧
+    pread (Spec.writeAll a (dv ++ [(o, d)])) o d.length = d := by
+  have h1 : Spec.writeAll a (dv ++ [(o, d)]) = splice (Spec.writeAll a dv) o d := by
+    simp [Spec.writeAll, List.foldl_append]
+  refine ⟨h1, ?_⟩
+  rw [h1]
+  apply List.ext_getElem?; intro i
+  rw [getElem?_pread, getElem?_splice]
+  by_cases hi : i < d.length
+  · have a1 : ¬ (o + i < o) := by omega
+    have a2 : o + i < o + d.length := by omega
+    simp [hi, a1, a2]
+  · simp [hi]
+
+example : Spec.writeAll [] [(0, [1, 1, 1]), (1, [2])] = [1, 2, 1] ∧ Spec.writeAll [] [(1, [2]), (0, [1, 1, 1])] = [1, 1, 1] := by
+  decide
 
 /-! ### truncation never exposes stale bytes -/
 
